@@ -104,11 +104,18 @@ func BuildRouterDoc(rng *rand.Rand, ts []tmpl, bf BaseForm, typed bool, perTempl
 		}
 		nm := 1 + rng.Intn(3)
 		perm := rng.Perm(len(methodsPool))
-		pathLevel := rng.Intn(3) == 0 && len(params) > 0
+		// declaration order is independent of template order; some variables are
+		// declared at path-item level, the rest per operation
+		rng.Shuffle(len(params), func(i, j int) { params[i], params[j] = params[j], params[i] })
+		nPathLevel := 0
+		if len(params) > 0 && rng.Intn(3) == 0 {
+			nPathLevel = 1 + rng.Intn(len(params))
+		}
+		piParams, opParams := params[:nPathLevel], params[nPathLevel:]
 		for _, mi := range perm[:nm] {
 			op := M{"responses": M{"200": M{"description": "ok"}, "default": M{"description": "err"}}}
-			if !pathLevel && len(params) > 0 {
-				op["parameters"] = Clone(params)
+			if len(opParams) > 0 {
+				op["parameters"] = Clone(opParams)
 			}
 			if security != "" && rng.Intn(3) == 0 {
 				op["security"] = L{}
@@ -117,13 +124,13 @@ func BuildRouterDoc(rng *rand.Rand, ts []tmpl, bf BaseForm, typed bool, perTempl
 		}
 		if explicitOptions && rng.Intn(3) == 0 {
 			op := M{"responses": M{"204": M{"description": "ok"}}}
-			if !pathLevel && len(params) > 0 {
-				op["parameters"] = Clone(params)
+			if len(opParams) > 0 {
+				op["parameters"] = Clone(opParams)
 			}
 			d.Op(path, "options", op)
 		}
-		if pathLevel {
-			d.PathItem(path)["parameters"] = params
+		if len(piParams) > 0 {
+			d.PathItem(path)["parameters"] = Clone(piParams)
 		}
 	}
 	return d
